@@ -104,7 +104,7 @@ def expected(mol: Mol):
     return exp
 
 
-def check(acc, m: Mol):
+def check(acc, m: Mol, history=0):
     import gbigsmiles
 
     text = m.text(False)
@@ -116,7 +116,15 @@ def check(acc, m: Mol):
     if len(res) != len(m.tokens):
         acc.count("token_count_mismatch_dropped")
         return
-    case = {"text": text, "ast": m.to_json()}
+    case = {"text": text, "ast": m.to_json(), "history": history}
+    if history:
+        # the graph must not depend on what was generated from the object before
+        import numpy as np
+        ok_wp, _ = reflaw.well_posed(m)
+        if ok_wp:
+            for k in range(history):
+                probe.guarded(lambda: obj.generate(rng=np.random.default_rng(k)), seconds=60)
+            acc.label("history:generate_before_graph")
     status, G = probe.guarded(obj.gen_reaction_graph, seconds=60)
     unequal = any(len({b.w for b in e.repeat_bds}) > 1 or len({b.w for b in e.end_bds}) > 1 for e in m.elements if isinstance(e, Stoch))
     has_list = any(b.transitions for t in m.tokens for b in t.bds) or any(isinstance(e, Stoch) and e.left.transitions for e in m.elements)
@@ -199,11 +207,11 @@ def check(acc, m: Mol):
 def run_shard(cfg):
     acc = Acc()
     n = max(1, SIZES[cfg["tier"]] // cfg["nshards"])
-    drive(molecules(max_blocks=3, max_atoms=4, small=True), lambda m: check(acc, m), n, cfg["seed"])
+    drive(st.tuples(molecules(max_blocks=3, max_atoms=4, small=True), st.sampled_from([0, 0, 1, 2])), lambda x: check(acc, x[0], x[1]), n, cfg["seed"])
     return acc
 
 
 def replay(case, rec):
     acc = Acc()
-    check(acc, Mol.from_json(case["ast"]))
+    check(acc, Mol.from_json(case["ast"]), case.get("history", 0))
     return acc
